@@ -289,10 +289,12 @@ pub struct Replica {
 pub fn run_replicas(plan: &GatherPlan, mode: Mode) -> (crate::engine::RunResult, Vec<Option<Replica>>) {
     let sim = new_sim(&plan.env, mode);
     let outp: Arc<Mutex<Vec<Option<Replica>>>> = Arc::new(Mutex::new(vec![None; plan.orders.len()]));
+    let keep = Keep::new();
     for (k, order) in plan.orders.iter().enumerate() {
         let plan = plan.clone();
         let order = order.clone();
         let outp = outp.clone();
+        let keep = keep.clone();
         let hs = plan.hash_seeds[k];
         sim.spawn(&format!("replica{}", k), false, move |ctx| {
             set_hash_seed(hs);
@@ -327,10 +329,12 @@ pub fn run_replicas(plan: &GatherPlan, mode: Mode) -> (crate::engine::RunResult,
             let text = crate::seams::catch(|| TextEncoder::new().encode_to_string(&mfs).unwrap_or_else(|e| format!("<encode error: {}>", e))).unwrap_or_else(|p| format!("<encode panic: {}>", p));
             ctx.ret(op_id(k, 0));
             outp.lock().unwrap()[k] = Some(Replica { fams, text, concurrent, errors });
-            drop(built);
+            keep.push(built);
+            keep.push(reg);
         });
     }
     let res = sim.run();
+    drop(keep);
     let o = outp.lock().unwrap().clone();
     (res, o)
 }
